@@ -81,20 +81,48 @@ type Runner struct {
 	// failed-request bookkeeping
 	LastFailed bool
 	AllocCfg   map[string][]*Config // per container: configurations its allocation may stem from
+	NoAlloc    map[string]bool      // containers known to have lost their allocation earlier (reported once)
 	PostStep   func(r *Runner, s *Step, rep *Reply)
 	Hostile    bool
+	Down       bool   // the plugin is not running: steps only change the runtime model
+	SnapDir    string // state-directory copy taken by a "snapshot" step
+	Restarts   int
+	// a restart from an older cache snapshot happened: known containers keep the cached
+	// (stale) resources and requirements, see known finding KF7
+	StaleRestarted bool
+	Cond           map[string]bool // every oracle clause that has fired in this history
+}
+
+// BrokenStateSuffix names known-defective states the history has already been through; checks
+// whose violations can be mere consequences of those append it to their signature.
+func (r *Runner) BrokenStateSuffix() string {
+	sfx := ""
+	if r.Stats["create_failed"]+r.Stats["update_failed"] > 0 {
+		sfx += ":after-failed-request"
+	}
+	if r.Cond["C03/shared-oversubscribed"] || r.Cond["C03/empty-cpuset"] {
+		sfx += ":after-pool-drained"
+	}
+	return sfx
 }
 
 func NewRunner(inst *Inst, m *Model, hist int) *Runner {
 	return &Runner{Inst: inst, M: m, Hist: hist, Stats: map[string]int{}, Seen: map[string]map[string]struct{}{},
-		Props: map[string]bool{}, AllocCfg: map[string][]*Config{}}
+		Props: map[string]bool{}, AllocCfg: map[string][]*Config{}, NoAlloc: map[string]bool{}}
 }
 
 func (r *Runner) Enabled(p string) bool { return len(r.Props) == 0 || r.Props[p] }
 
 func (r *Runner) Violate(prop, check, sig, format string, args ...interface{}) {
+	if r.Cond == nil {
+		r.Cond = map[string]bool{}
+	}
+	r.Cond[prop+"/"+check] = true // remembered even when the property's reports are filtered out
 	if !r.Enabled(prop) {
 		return
+	}
+	if r.StaleRestarted && (prop == "C01" || prop == "C03" || prop == "C04" || prop == "C05" || prop == "C12") {
+		sig += ":after-stale-cache-restart"
 	}
 	v := Violation{Prop: prop, Check: check, Sig: sig, Msg: fmt.Sprintf(format, args...), Step: r.StepNo, Hist: r.Hist, Op: r.LastOp}
 	// one report per (prop, check) and history is enough: a broken state persists over
@@ -240,6 +268,10 @@ func (r *Runner) Do(s *Step) *Reply {
 	r.LastOp = s.Op
 	r.logCmd(s)
 	rep := &Reply{}
+	if r.doLifecycle(s, rep) {
+		r.logReply(rep)
+		return rep
+	}
 	rm := r.Inst.RM
 	r.Count("req_" + s.Op)
 	switch s.Op {
@@ -403,22 +435,16 @@ func (r *Runner) Do(s *Step) *Reply {
 		}
 
 	case "sync":
-		pods, ctrs := r.RuntimeLists()
-		var (
-			ups []*api.ContainerUpdate
-			err error
-		)
-		rep.Panic = r.guard(s, func() { ups, err = rm.Synchronize(pods, ctrs) })
-		rep.Err, rep.Updates = errStr(err), ups
-		if rep.Panic == "" && err == nil {
-			for _, c := range r.LiveCtrs() {
-				r.AllocCfg[c.Key] = []*Config{r.Inst.Cfg}
-			}
-			r.applyUpdates(ups, nil, "sync-reply")
-		}
+		r.doSync(s, rep)
 
 	case "reconf":
 		var err error
+		c13b := r.c13Before(s)
+		shadowBefore := map[string]Res{}
+		for _, k := range r.M.CtrKeys() {
+			shadowBefore[k] = r.M.Ctrs[k].Shadow
+		}
+		defer func() { r.c13After(s, rep, c13b, shadowBefore) }()
 		rm.Stub.TakePushed()
 		rep.Panic = r.guard(s, func() { err = rm.Reconfigure(s.Cfg.ResmgrConfig()) })
 		rep.Err = errStr(err)
@@ -472,6 +498,24 @@ func (r *Runner) Do(s *Step) *Reply {
 		r.PostStep(r, s, rep)
 	}
 	return rep
+}
+
+// doSync delivers Synchronize with the runtime's current lists.
+func (r *Runner) doSync(s *Step, rep *Reply) {
+	rm := r.Inst.RM
+	pods, ctrs := r.RuntimeLists()
+	var (
+		ups []*api.ContainerUpdate
+		err error
+	)
+	rep.Panic = r.guard(s, func() { ups, err = rm.Synchronize(pods, ctrs) })
+	rep.Err, rep.Updates = errStr(err), ups
+	if rep.Panic == "" && err == nil {
+		for _, c := range r.LiveCtrs() {
+			r.AllocCfg[c.Key] = []*Config{r.Inst.Cfg}
+		}
+		r.applyUpdates(ups, nil, "sync-reply")
+	}
 }
 
 func (r *Runner) ctrPod(s *Step) (*MCtr, *api.PodSandbox) {
